@@ -212,7 +212,7 @@ func (s *Datastore) read(ctx context.Context, store string, filter storage.ReadF
 				"user_object_id": userObjectID,
 			})
 		}
-		if userRelation != "" {
+		if userRelation != "" || userObjectID != "" {
 			sb = sb.Where(sq.Eq{
 				"user_relation": userRelation,
 			})
